@@ -389,6 +389,22 @@ def cli_conformance(st, sym):
                 break
             st.validated += 1
         st.outcomes["cli-grep"] += 1
+        # the matching line at every position of a longer file (first, middle, last): grep must find it there too
+        for pos in range(3):
+            other = ["XX nothing here XX", "XX still nothing XX"]
+            body = other[:pos] + [lines[0]] + other[pos:]
+            with open("probe.txt", "w", encoding="utf-8", newline="") as fh:
+                fh.write("\n".join(body) + "\n")
+            o = world.cli("grep", "--", pat, "probe.txt") if pat.startswith("-") else world.cli("grep", pat, "probe.txt")
+            st.evaluations += 1
+            st.observe((sym, ctx, "pos", pos, o.exit, o.crashed))
+            want = refrx.search(lines[0])
+            if want and (o.exit != 0 or o.crashed) and not fails_alone_as_literal(sym):
+                where = ("first", "middle", "last")[pos]
+                st.violation(f"C07:grep-misses-matching-line:on-{where}-line-of-a-longer-file", {"syms": [sym], "ctx": ctx, "cli": "grep", "position": pos},
+                             {"kind": "grep-position", "pattern": pat, "file": body, "exit": o.exit, "crashed": o.crashed})
+            elif want:
+                st.validated += 1
     # update: file pattern = <sym>{version}<sym-free tail>; only the exact line may be rewritten
     text = sym_text(sym)
     if sym in ("^",):
